@@ -400,6 +400,9 @@ class LangServer:
                 if only_list is None:
                     only_list = []
                 tmp_list: list[str] = []
+                # e.g. an IMPORT statement whose host scope does not exist
+                if scope is None:
+                    return tmp_list
                 # Filter children
                 nonly = len(only_list)
                 for child in scope.get_children(filter_public):
